@@ -46,6 +46,9 @@ func TestMain(m *testing.M) {
 type rootCase struct {
 	Universe gen.Universe `json:"universe"`
 	Root     [2]string    `json:"root"`
+	// Prior: roots resolved earlier on the same resolver (a resolver is made to
+	// be used for many roots; what it returns must not depend on them).
+	Prior [][2]string `json:"prior,omitempty"`
 }
 
 // ---- reference model (range-free universes) ----------------------------------
@@ -534,14 +537,18 @@ func predicates(client *resolve.LocalClient, g *resolve.Graph, st *modelStats) (
 	return "", "", nil
 }
 
-func validate(u gen.Universe, root [2]string) (obs, exp string, st modelStats, status string, err error) {
+func validate(u gen.Universe, root [2]string, prior ...[2]string) (obs, exp string, st modelStats, status string, err error) {
 	sch, e := schema.New(u.Text(), resolve.Maven)
 	if e != nil {
 		return "", "", st, "", fmt.Errorf("harness: schema rejects the universe: %v", e)
 	}
 	client := sch.NewClient()
 	rvk := resolve.VersionKey{PackageKey: resolve.PackageKey{System: resolve.Maven, Name: root[0]}, VersionType: resolve.Concrete, Version: root[1]}
-	g, rerr := mavenresolve.NewResolver(client).Resolve(context.Background(), rvk)
+	resolver := mavenresolve.NewResolver(client)
+	for _, p := range prior {
+		resolver.Resolve(context.Background(), resolve.VersionKey{PackageKey: resolve.PackageKey{System: resolve.Maven, Name: p[0]}, VersionType: resolve.Concrete, Version: p[1]})
+	}
+	g, rerr := resolver.Resolve(context.Background(), rvk)
 	if !universeHasRanges(u) {
 		mclient := sch.NewClient()
 		mg, merr := model(mclient, rvk, &st)
@@ -600,10 +607,12 @@ func prop(noRanges bool) func(*rapid.T) {
 				idx = append(idx, rapid.IntRange(0, len(roots)-1).Draw(t, "root"))
 			}
 		}
+		var prior [][2]string
 		for _, i := range idx {
-			c := rootCase{u, roots[i]}
+			c := rootCase{u, roots[i], append([][2]string(nil), prior...)}
 			rec.SetCase(c)
-			obs, exp, st, status, err := validate(u, roots[i])
+			obs, exp, st, status, err := validate(u, roots[i], prior...)
+			prior = append(prior, roots[i])
 			if err != nil {
 				t.Fatalf("harness/oracle failure: %v", err)
 			}
@@ -649,7 +658,7 @@ func TestCorpus(t *testing.T) {
 		if err := json.Unmarshal(fd.Witness, &c); err != nil {
 			t.Fatalf("bad witness %s: %v", fd.ID, err)
 		}
-		if obs, _, _, _, _ := validate(c.Universe, c.Root); obs != "" {
+		if obs, _, _, _, _ := validate(c.Universe, c.Root, c.Prior...); obs != "" {
 			rec.Known(fd.ID, fd.Text+" ["+strings.SplitN(obs, "\n", 2)[0]+"]")
 		}
 	}
@@ -680,7 +689,7 @@ func TestReplay(t *testing.T) {
 		}
 		return
 	}
-	obs, exp, _, _, err := validate(c.Universe, c.Root)
+	obs, exp, _, _, err := validate(c.Universe, c.Root, c.Prior...)
 	if err != nil {
 		t.Fatal(err)
 	}
